@@ -89,6 +89,14 @@ class ClosureSpec:
 
 
 @dataclass
+class Hoist:
+    anchor: str                    # text in front of which the `let`s are placed
+    items: list                    # ('closure', ordinal, name) | ('expr', text, name)
+    proof: str
+    vc_line: int
+
+
+@dataclass
 class Insert:
     where: str         # body-start, body-end, loop-start, loop-end, before, after
     arg: object        # loop ordinal or (text, nth)
@@ -118,6 +126,7 @@ class FnContract:
     attrs: List[str] = field(default_factory=list)
     mutself: bool = False
     cells: List[str] = field(default_factory=list)   # rule R29
+    hoists: List[Hoist] = field(default_factory=list)   # rule R30: arguments bound to locals in front of the call statement
     inlines: List[str] = field(default_factory=list)   # rule R31: library combinators replaced by their definition (`unwrap_or_else`)
     opassigns: List[tuple] = field(default_factory=list)   # rule R32: (`|=`, method) compound assignment on a user type -> method call
     sig: ClauseBlock = field(default_factory=ClauseBlock)
@@ -296,6 +305,24 @@ def parse_vc(path: str, text: str) -> List[FnContract]:
                 raise ContractError('%s:%d: bad @insert %r' % (path, ln0, args))
             for ins_ in cur.inserts[n_before:]:
                 ins_.group = grp
+        elif name == 'hoist':
+            a = _split_quoted(args)
+            if len(a) < 2 or a[0] != 'before':
+                raise ContractError('%s:%d: bad @hoist' % (path, ln0))
+            items, prf = [], []
+            for _, l in body:
+                t = l.strip()
+                if t.startswith('proof:'):
+                    prf.append(t.split('proof:', 1)[1].strip())
+                elif t.startswith('closure '):
+                    w = t.split()
+                    items.append(('closure', int(w[1]), w[3]))
+                elif t.startswith('expr '):
+                    q = _split_quoted(t[5:])
+                    items.append(('expr', _unq(q[0]), q[2]))
+                elif t:
+                    raise ContractError('%s:%d: bad @hoist line %r' % (path, ln0, t))
+            cur.hoists.append(Hoist(_unq(a[1]), items, ' '.join(prf), ln0))
         elif name == 'stubsig':
             cur.stubsig = '\n'.join(l for _, l in body).strip()
         elif name == 'candidates':
@@ -357,7 +384,7 @@ def parse_vc(path: str, text: str) -> List[FnContract]:
                         j += 1
                     j += 1
                 cur.replaces.append(Replace(_unq(a[0]), _unq(a[2]), nth, rule, i))
-            elif head in ('@sig', '@loop', '@closure', '@insert', '@stubsig', '@candidates', '@note'):
+            elif head in ('@sig', '@loop', '@closure', '@insert', '@stubsig', '@candidates', '@note', '@hoist'):
                 section = (head[1:], rest, [], i)
             else:
                 raise ContractError('%s:%d: unknown directive %s' % (path, i, head))
@@ -411,6 +438,7 @@ def _merge(a: FnContract, b: FnContract) -> FnContract:
     a.loops.update(b.loops)
     a.closures.update(b.closures)
     a.inserts += b.inserts
+    a.hoists += b.hoists
     a.replaces += b.replaces
     a.stubsig = a.stubsig or b.stubsig
     a.bodysig = a.bodysig or b.bodysig
